@@ -109,3 +109,48 @@ def memos(ctx, rep):
                     "traced programs")
     if not n:
         rep.proved("R-C42-memo", "capture / interpreter modules", "no partial-key memo (positive examples are kept as self-test variants)", nontrivial=False)
+
+
+def ctrlorder(ctx, rep):
+    """R-C42-ctrlorder: when a control layer is merged into an already controlled equation (ControlledOp2._bind_primitive), the new
+    control wires and the new control values are inserted on the same side of the old ones: wires[i] is paired with values[i]."""
+    ix = ctx.index
+    rel = "pennylane/ops/op_math/controlled2.py"
+    rep.rule("R-C42-ctrlorder", "in ops/op_math/controlled2.py, wherever a function builds both a control-wire sequence and a control-value sequence by "
+             "concatenating this operator's own (`self.control_wires` / `self.control_values`) with those of an inner equation/operator, the own part "
+             "sits on the same side in both concatenations")
+    m = ix.module(rel)
+    n = 0
+
+    def own_side(e, attr):
+        """'left' / 'right' / None: on which side of a two-operand `+` the operand mentioning self.<attr> sits"""
+        if not (isinstance(e, ast.BinOp) and isinstance(e.op, ast.Add)):
+            return None
+        l_own = any(isinstance(x, ast.Attribute) and x.attr == attr and isinstance(x.value, ast.Name) and x.value.id == "self" for x in ast.walk(e.left))
+        r_own = any(isinstance(x, ast.Attribute) and x.attr == attr and isinstance(x.value, ast.Name) and x.value.id == "self" for x in ast.walk(e.right))
+        if l_own == r_own:
+            return None
+        return "left" if l_own else "right"
+    for f in ix.funcs_in(m):
+        wires_side = values_side = None
+        wnode = vnode = None
+        for st in walk_shallow(f.node):
+            if isinstance(st, ast.Assign) and len(st.targets) == 1 and isinstance(st.targets[0], ast.Name):
+                s_w = own_side(st.value, "control_wires")
+                s_v = own_side(st.value, "control_values")
+                if s_w and not s_v:
+                    wires_side, wnode = s_w, st
+                if s_v and not s_w:
+                    values_side, vnode = s_v, st
+        if wires_side is None or values_side is None:
+            continue
+        n += 1
+        rep.analysed(rel, f.qualname)
+        if wires_side == values_side:
+            rep.proved("R-C42-ctrlorder", f"{rel}:{f.qualname}", f"own control wires and own control values are both placed on the {wires_side}")
+        else:
+            rep.refuted("R-C42-ctrlorder", rel, f.qualname, vnode,
+                        f"the operator's own control wires are placed on the {wires_side} of the inner ones (`{norm(wnode)[:70]}`) but its control values on "
+                        f"the {values_side} (`{norm(vnode)[:70]}`): after the merge wire i is paired with the control value of another wire, so "
+                        "ctrl(adjoint(ctrl(op, control_values=a)), control_values=b) with a != b is captured as a different operator", line=vnode.lineno)
+    rep.floor("functions merging own and inner control wires/values", n, 1)
